@@ -159,7 +159,8 @@ class LoggedProblem(Problem):
         # numpy.float64 values.
         self.style = dict(style or {})
         self.numberOfFloatVariables = n
-        self.dimension = n
+        if not self.style.get("no_dimension"):
+            self.dimension = n       # not declared by iOpt.problem.Problem; every shipped problem sets it
         self.numberOfDisreteVariables = 0
         self.numberOfObjectives = 1
         self.numberOfConstraints = 0
